@@ -256,18 +256,21 @@ class SchemaGen(object):
         if name == "Float":
             return rng.choice([0.0, 1.5, -2.25, 1e10, 3, rng.random() * 100])
         if name == "String":
-            return rng.choice(["", "abc", 'with "quotes"', "back\\slash", "uni é", "line\nbreak", "x y z"])
+            return rng.choice(["", "abc", 'with "quotes"', "back\\slash", "uni é", "line\nbreak", "x y z",
+                               "ends with a line feed\n", "\n", "tab\tand cr\r", "12\n"])
         if name == "Boolean":
             return rng.choice([True, False])
         if name == "ID":
-            return rng.choice(["id1", "42", 7])
+            return rng.choice(["id1", "42", 7, "12\n", "007", " 7", "id\n"])
         st = self.s.types[name]
         if st.kind == "enum":
             return EnumLit(rng.choice(st.values).name)
         if st.kind == "scalar":
             if st.strict:
                 return "%s:%d" % (st.name, rng.randint(0, 99))
-            return rng.choice(["s", "free form", "", "s", True, False])
+            # strings that python's float() accepts are what a printer guessing "number-like" stumbles over
+            return rng.choice(["s", "free form", "", "s", True, False, "s", "nan", "inf", "-Infinity", "1e400", "free form",
+                               "42.42", "007", "1e5", " 12 ", "s"])
         if st.kind == "input":
             out = collections.OrderedDict()
             for f in st.input_fields:
@@ -374,7 +377,7 @@ class SchemaGen(object):
         if not self.chance(p):
             return None
         return self.rng.choice(["No longer supported", "use something else", 'with "quotes"', "", "see \U0001f600 \U0001d538",
-                                "back\\slash", "two\nlines", "use something else"])
+                                "back\\slash", "two\nlines", "use something else", "ends with a line feed\n"])
 
     def gen_field(self, owner, output_names):
         """New pooled field (name unique globally => same signature everywhere)."""
